@@ -210,6 +210,17 @@ HISTORY = {
     "look-ups through a state-changing __getattr__ are judged by hand",
     "C19_r11_async_reserved_name_error_raised_outside_the_try": "missed at first (a refused call was never repeated); caught after the misuse call is "
     "made again after its TypeError was swallowed",
+    "C05_r12_signature_of_the_innermost_function": "missed at first (no decorator between contracts and function that declares __signature__, no "
+    "contracts on bound methods); caught after the adapted-signature scenario",
+    "C09_r12_async_error_of_overruled_group_created": "missed at first (the programs of C09 had one precondition group; C04 covers the sync twin); "
+    "caught after the two-group scenario with a counting and a sloppy factory on the overruled group, sync and async",
+    "C13_r12_async_wrapper_forgets_variadic_reserved_names": "missed at first by C13 (C19 has the misuse, unpaired); caught after the pairs with "
+    "*result / **OLD / **result which the call leaves empty or fills",
+    "C15_r12_disabled_invariant_validates_its_arguments": "missed at first (disabled invariants only had arguments an enabled one accepts too); caught "
+    "after disabled invariants with an asynchronous condition and with an invalid error",
+    "C18_r12_decorator_announces_dbc_class_again": "missed at first (the recording hook wrapped the default one, which keeps the library's own memory "
+    "fed); caught after a scenario that REPLACES the hook",
+    "C19_r12_falsy_error_argument_taken_for_none": "missed at first (invalid error arguments were all truthy); caught after 0, '', False, () and {}",
 }
 
 
